@@ -85,4 +85,28 @@ CLAIMED['C09'] = dict(
     technique='Lean 4 invariant proof by induction over operation sequences + differential correspondence',
 )
 
+CLAIMED['C14'] = dict(
+    text='(a) The model is a function of (scenario, weight function), so determinism holds by construction and is transferred '
+         'by the correspondence check (implementation = that function on families env and floor with random asset-id offsets). '
+         '(b) Theorems (Props/C14.lean): a strictly monotone renaming of asset ids commutes with every environment operation '
+         'and operation sequence (ids are used only through < as last tie-break and = in pause/cancel), i.e. results are '
+         'independent of the id offset. (c) run_split (a then b = a+b with fixed tie-breaks) is stated in Props/C14Split.lean; '
+         'until its proof is merged it is covered by the split-run metamorphic check only. (d) Same seed twice with the '
+         'unpatched generator, different PYTHONHASHSEEDs, simulate_multiple_times in-process vs 1/2/4/default worker processes '
+         'are CHECKED on the real code on every run (not provable about CPython).',
+    note=BASE_NOTE + ' Partial: worker-process equality, hash-order independence and (for now) run_split are checked, not proved.',
+    technique='Lean 4 commutation theorem + differential correspondence + metamorphic runs of the real code',
+)
+CLAIMED['C16'] = dict(
+    text='Theorems (Props/C16.lean) for every sequence of value changes of an asset: value = starting value + sum of the '
+         'history changes; every entry carries (label, time, change, running total) with consistent running totals; zero '
+         'changes are not recorded and change nothing; add_cost = add_value of the negation; the starting value never '
+         'changes; net value = sum over assets. The amounts used at the library\'s sites (source: minus the value of the '
+         'supplied part; sink: value at receipt; maintainer: order cost; batch = sum of parts) are part of the executable '
+         'model (Floor.lean / World.lean use AssetVal.addValue/addCost) and are checked by correspondence on the floor and '
+         'maint families and by a live-object check of every asset and part after every event (partial: sites not theorems).',
+    note=BASE_NOTE,
+    technique='Lean 4 invariant proof over value histories + differential correspondence + live-object bookkeeping check',
+)
+
 NOT_CLAIMED = {}
